@@ -143,19 +143,23 @@ def parse(text: str):
     return value
 
 
-def read_dump(path: str):
-    """ Yields one dict {variable: value} per state of a `-dump` file. """
+def read_dump(path: str, keep=None):
+    """ Yields one dict {variable: value} per state of a `-dump` file.
+        keep(text) -> bool pre-filters raw state blocks before they are parsed.
+    """
+    def emit(text):
+        if text.strip() and (keep is None or keep(text)):
+            yield _state(text)
+
     with open(path, encoding="utf-8") as handle:
         block = []
         for line in handle:
             if line.startswith("State "):
-                if block:
-                    yield _state("".join(block))
+                yield from emit("".join(block))
                 block = []
             else:
                 block.append(line)
-        if block and "".join(block).strip():
-            yield _state("".join(block))
+        yield from emit("".join(block))
 
 
 _VAR = re.compile(r"^(?:/\\ )?(\w+) = ", re.M)
